@@ -109,6 +109,12 @@ def domain_of(run, v):
                 return Domain(n, lambda i: TupleV([ArmV(T.aat(run.deref(ref).keys, i)),
                                                    _entry_val(run, ref, T.aat(run.deref(ref).keys, i))]),
                               arm_seq=o.keys)
+    if isinstance(v, Lazy) and v.kind == 'setof':
+        sv = lib.as_seq(run, v.payload) if v.payload is not None else None
+        if sv is not None and sv.kind == 'A':
+            # the iteration order of a set of labels follows their hashes: for strings it changes with PYTHONHASHSEED,
+            # i.e. between processes (C04, C19), and it is not invariant under renaming (C20)
+            raise Unsupported('hash-order: iteration over a set of arm labels')
     raise Unsupported('iteration over %r' % (v,))
 
 
@@ -201,6 +207,17 @@ def summarise(run, dom, body, where='', collect=False, parallel=None, target=Non
                     break
                 if isinstance(o1, SymListO):
                     st0.heap[loc] = SymListO(z3.IntVal(0), z3.K(Int, PV.pv_none), o1.ekind)
+                    retyped = True
+                    break
+    # a dictionary of (still empty) records that the body fills: give it the record's columns, then start over
+    for loc in list(heap_written):
+        o0 = st0.heap[loc]
+        if isinstance(o0, MapO) and not o0.cols and not z3.eq(o0.keys, T.aempty):
+            for kind, payload, st1, pctx, env1 in ends:
+                o1 = st1.heap[loc]
+                if isinstance(o1, MapO) and o1.cols and all(c and not c.startswith('#') for c in o1.cols):
+                    st0.heap[loc] = MapO(o0.keys, {c: fresh('col_' + c, arr.sort()) for c, arr in o1.cols.items()},
+                                         dict(o1.vkinds), o1.record_cls)
                     retyped = True
                     break
     # the same for a name bound to an empty list that the body rebinds to a sequence (`xs = list(); xs += ys`)
@@ -920,6 +937,10 @@ def build_map_from_pairs(run, dom, body, where):
     v = iv.at(T.apos(s, a_))
     lib = run.eng.lib
     from .lib import _vkind_of
+    if isinstance(v, Ref) and isinstance(run.deref(v), MapO) and not run.deref(v).cols and \
+            z3.eq(run.deref(v).keys, T.aempty):
+        # every value is an empty dict literal: a dictionary of records whose fields are decided by the first store
+        return run.st.alloc(MapO(s, {}, {}))
     if isinstance(v, RecordV):
         cols, vk = {}, {}
         for f, x in v.fields.items():
